@@ -67,6 +67,10 @@ pub fn gen_c14(sh: &mut Shards, o: &Opts) -> serde_json::Value {
                 let rgb = || Rgb::new(RGB_PX.to_vec(), 2, 2, tc(t), cp(p)).expect("rgb");
                 let lin = || LinearRgb::new(RGB_PX.to_vec(), 2, 2).expect("lin");
                 let xyb = || Xyb::from(lin());
+                // the reference outputs (same matrix with BT.1886 / BT.709 labels) are computed FIRST, so that the last
+                // conversions of one row and the first of the next are both the rows' own configurations (call adjacency)
+                let (_, ref_y2r) = y2r(&cref);
+                let (_, ref_r2y) = r2y(&cref, 1, 1);
                 let mut s = String::new();
                 let _ = write!(s, "\"ev\":\"c14row\",\"mc\":{m},\"tc\":{t},\"cp\":{p},\"res\":{{");
                 let (a, out_y2r) = y2r(&c);
@@ -87,8 +91,6 @@ pub fn gen_c14(sh: &mut Shards, o: &Opts) -> serde_json::Value {
                 let _ = write!(s, ",\"HslToLin\":\"{}\"", guard(|| Ok(LinearRgb::from(Hsl::from(lin())))).0);
                 s.push('}');
                 // raw outputs of the matrix stage for this triple and for the same matrix with (BT1886, BT709)
-                let (_, ref_y2r) = y2r(&cref);
-                let (_, ref_r2y) = r2y(&cref, 1, 1);
                 let jr = |s: &mut String, k: &str, v: &Option<Rgb>| {
                     let _ = write!(s, ",\"{k}\":");
                     match v {
